@@ -66,7 +66,7 @@ def _arg_char(arg):
     if isinstance(arg, list) and len(arg) == 2 and arg[0] == "lit" and isinstance(arg[1], str) and len(arg[1]) == 1:
         return arg[1]          # a one-character Pregex is accepted like a token
     if isinstance(arg, list):
-        raise ModelExc("InvalidArgumentTypeException")
+        raise ModelExc("InvalidArgumentTypeException")      # a list, a multi-character or empty Pregex, ...
     if isinstance(arg, str):
         if len(arg) != 1:
             raise ModelExc("InvalidArgumentTypeException")
